@@ -1,4 +1,8 @@
 // C06 - every file passes the caller's check before use; one rejection yields nothing
+#include <signal.h>
+#include <sys/stat.h>
+#include <sys/wait.h>
+
 #include <map>
 #include <set>
 
@@ -30,12 +34,136 @@ struct FileSwap {
   bool is_devnull = false;
 };
 
+
+// ------------------------------------------------------------------ a named pipe as drop-in
+// A FIFO is a file whose consultation can be observed from outside: a forked writer blocks in open() until the
+// library opens the pipe for reading. The oracle is the property read literally: the library may open the pipe
+// only after the callback has been shown its path and accepted it; its content is visible only then; a rejection
+// gives the callback-failed code and nothing else. (Whether a library consults pipes at all is not judged.)
+static void run_fifo(Src &s) {
+  cleanup_tree(g_scr.dir);
+  g_case.tag("fifo_dropin");
+  const std::string usr = g_scr.dir + "/usr/share/fx", etc = g_scr.dir + "/etc/fx";
+  mkdir_p(usr + "/app.conf.d");
+  mkdir_p(etc + "/app.conf.d");
+  bool main_file = s.chance(70);
+  if (main_file) write_file(usr + "/app.conf", "m=usr\n");
+  bool before = s.chance(50), after = s.chance(50), lower_namesake = s.chance(40);
+  if (before) write_file(etc + "/app.conf.d/10-before.conf", "b=1\n");
+  if (after) write_file(etc + "/app.conf.d/90-after.conf", "a=1\n");
+  if (lower_namesake) write_file(usr + "/app.conf.d/50-pipe.conf", "masked=1\n");
+  const std::string fifo = etc + "/app.conf.d/50-pipe.conf";
+  VF_CHECK(mkfifo(fifo.c_str(), 0644) == 0, "harness", "mkfifo failed");
+  size_t ep = s.below(3);      // 0 readDirsWithCallback 1 readDirsHistoryWithCallback 2 readConfigWithCallback
+  size_t decision = s.below(3);  // 0 accept all, 1 reject the pipe, 2 reject the file behind it (or accept all)
+  static const char *EPN[3] = {"readDirsWithCallback", "readDirsHistoryWithCallback", "readConfigWithCallback"};
+  g_case.desc = std::string("fifo drop-in via ") + EPN[ep] + " decision=" + std::to_string(decision) + (main_file ? " main" : "") +
+                (before ? " before" : "") + (after ? " after" : "") + (lower_namesake ? " lower-namesake" : "");
+  g_case.nontrivial = true;
+  g_case.shape_hash = fnv_u64(ep * 64 + decision * 16 + main_file * 8 + before * 4 + after * 2 + lower_namesake, 0xf1f0);
+  fflush(nullptr);
+  pid_t w = fork();
+  VF_CHECK(w >= 0, "harness", "fork failed");
+  if (w == 0) {
+    int fd = open(fifo.c_str(), O_WRONLY);  // returns when the library opens the pipe
+    if (fd < 0) _exit(3);
+    const char body[] = "[PIPESEC]\nPIPE_KEY=1\n";
+    if (write(fd, body, sizeof body - 1) < 0) _exit(4);
+    close(fd);
+    _exit(0);
+  }
+  CbCtx cb;
+  bool pipe_shown = false, pipe_accepted = false;
+  cb.decide = [&](const char *fn) {
+    std::string p = collapse_slashes(fn ? fn : "");
+    if (p == collapse_slashes(fifo)) {
+      pipe_shown = true;
+      pipe_accepted = decision != 1;
+      return pipe_accepted;
+    }
+    if (decision == 2 && base_name(p) == "90-after.conf") return false;
+    return true;
+  };
+  const void *cbdata[2] = {&cb, nullptr};
+  econf_err rc;
+  econf_file *kf = (econf_file *)-1;
+  econf_file **hist = (econf_file **)-1;
+  size_t hn = 0;
+#pragma GCC diagnostic push
+#pragma GCC diagnostic ignored "-Wdeprecated-declarations"
+  if (ep == 0)
+    rc = econf_readDirsWithCallback(&kf, usr.c_str(), etc.c_str(), "app", "conf", "=", "#", tree_callback, cbdata);
+  else if (ep == 1)
+    rc = econf_readDirsHistoryWithCallback(&hist, &hn, usr.c_str(), etc.c_str(), "app", "conf", "=", "#", tree_callback, cbdata);
+  else {
+    econf_err e0 = econf_newKeyFile_with_options(&kf, ("PARSING_DIRS=" + usr + ":" + etc).c_str());
+    VF_CHECK(e0 == ECONF_SUCCESS, "harness", "options object");
+    rc = econf_readConfigWithCallback(&kf, nullptr, nullptr, "app", "conf", "=", "#", tree_callback, cbdata);
+  }
+#pragma GCC diagnostic pop
+  // was the pipe opened by the library? (the writer is past its open() exactly then)
+  bool consulted = false;
+  for (int i = 0; i < 200; i++) {
+    int st = 0;
+    pid_t r = waitpid(w, &st, WNOHANG);
+    if (r == w) {
+      consulted = WIFEXITED(st) && WEXITSTATUS(st) != 3;
+      w = -1;
+      break;
+    }
+    if (i >= 20) break;  // still blocked in open(): never opened by the library
+    usleep(1000);
+  }
+  if (w > 0) {
+    kill(w, SIGKILL);
+    waitpid(w, nullptr, 0);
+  }
+  bool visible = false;
+  std::string shown;
+  auto look = [&](econf_file *f) {
+    Observed o = observe(f);
+    for (auto &g : o.groups) visible = visible || g == "PIPESEC";
+    for (auto &sk : o.keys)
+      for (auto &k : sk.second) visible = visible || k == "PIPE_KEY";
+    shown += show(o);
+  };
+  bool handed = false;
+  if (ep == 1) {
+    handed = hist != (econf_file **)-1 && hist != nullptr;
+    if (handed && rc == ECONF_SUCCESS) {
+      for (size_t i = 0; i < hn; i++) {
+        look(hist[i]);
+        econf_freeFile(hist[i]);
+      }
+      free(hist);
+    }
+  } else if (kf != (econf_file *)-1 && kf != nullptr) {
+    look(kf);
+    handed = ep != 2 || rc == ECONF_SUCCESS;  // readConfig hands the caller's own object back
+    econf_freeFile(kf);
+  }
+  cleanup_tree(g_scr.dir);
+  std::string ctx = g_case.desc + ": rc=" + std::to_string(rc) + " pipe " + (consulted ? "opened" : "not opened") + ", " +
+                    (pipe_shown ? (pipe_accepted ? "shown and accepted" : "shown and rejected") : "never shown to the callback");
+  if (consulted) g_case.tag("fifo_consulted");
+  VF_CHECK(!consulted || (pipe_shown && pipe_accepted), "unchecked-file-opened", ctx << ": the library opened a file the callback had not accepted");
+  VF_CHECK(!visible || (pipe_shown && pipe_accepted), "unchecked-content-visible", ctx << ": content of the pipe is visible\n" << shown);
+  bool rejected = (pipe_shown && !pipe_accepted) || (decision == 2 && after && cb.log.size() && base_name(cb.log.back()) == "90-after.conf");
+  if (rejected) {
+    g_case.tag("with_rejection");
+    VF_CHECK(rc == ECONF_PARSING_CALLBACK_FAILED, "wrong-code", ctx << ": expected ECONF_PARSING_CALLBACK_FAILED");
+    VF_CHECK(!(handed && (ep == 1 || visible)), "partial-result", ctx << ": something was handed back after a rejection\n" << shown);
+  }
+}
+
 static void run(Src &s) {
+  econf_reset_security_settings();
   cleanup_tree(g_scr.dir);  // nothing may leak from a previous (failed) case
   TreeOpts to;
   to.max_consulted = 6;
   // entry point: 0 readConfigWithCallback, 1 readDirsWithCallback, 2 readDirsHistoryWithCallback, 3 readFileWithCallback
-  size_t ep = s.weighted({40, 22, 22, 16});
+  size_t ep = s.weighted({40, 22, 22, 16, 5});
+  if (ep == 4) return run_fifo(s);
   if (ep == 1 || ep == 2) to.only_twodirs = true;
   if (ep == 0 || ep == 3) to.allow_twodirs = false;
   Params pa = gen_params(s, to);
@@ -83,7 +211,19 @@ static void run(Src &s) {
   int cookie_store[4];
   const void *cookie = s.chance(15) ? nullptr : (const void *)&cookie_store[s.below(4)];
 
-  g_case.desc = std::string(EPN[ep]) + " " + describe(t, pa) + " consulted=" + std::to_string(cons.size());
+  // restrictions that every file of the tree satisfies may be in force: the caller's check is still owed
+  // (bit 0: permission bits every generated file and directory has; bit 1: our own uid; bit 2: our own gid)
+  size_t restr = s.chance(25) ? 1 + s.below(7) : 0;
+  struct ResetGuard {
+    ~ResetGuard() { econf_reset_security_settings(); }
+  } reset_guard;
+  if (restr & 1) econf_requirePermissions(S_IRUSR, S_IXUSR);
+  if (restr & 2) econf_requireOwner(geteuid());
+  if (restr & 4) econf_requireGroup(getegid());
+  if (restr) g_case.tag("satisfied_restrictions_in_force");
+
+  g_case.desc = std::string(EPN[ep]) + " " + describe(t, pa) + " consulted=" + std::to_string(cons.size()) +
+                (restr ? " satisfied-restrictions=" + std::to_string(restr) : std::string());
   g_case.tag(std::string("ep_") + EPN[ep]);
   g_case.nontrivial = cons.size() >= 2;
   g_case.shape_hash = fnv_u64(ep, tree_shape(t, pa));
